@@ -261,9 +261,9 @@ func (fr *Frame) callAppend(cc *ssa.CallCommon, args []Val, reach string, h Heap
 	newLen := fr.idxAdd(ln, one)
 	u.assume(and(fr.idxLe(newLen, newCap), implies(inPlace, eq(newCap, cp))))
 	if !so.bv {
-		u.assume(app("<=", newCap, "1152921504606846976"))
+		u.assume(app("<=", newCap, "72057594037927936"))
 	} else {
-		u.assume(app("bvult", newCap, "(_ bv1152921504606846976 64)"))
+		u.assume(app("bvult", newCap, "(_ bv72057594037927936 64)"))
 	}
 	// a fresh array keeps the (model-level) offset of the old slice; its cells
 	// below off+len are copies, the cell at off+len is the new element.
@@ -381,6 +381,22 @@ func (fr *Frame) callByContract(ct *Contract, callee *ssa.Function, sig *types.S
 		u.assumed["assumed contract: "+key] = true
 	} else {
 		u.called[key] = true
+	}
+	if ct.Mode == "bv" && !u.so.bv {
+		// bit positions and widths are usually constants that reach the call through
+		// variables: discover them (each discovery is an unsat query: prefix && reach && arg != c)
+		args = append([]Val(nil), args...)
+		for i, a := range args {
+			if a.S != "Int" {
+				continue
+			}
+			if _, lit := parseLit(a.T); lit {
+				continue
+			}
+			if c, ok := u.tryConst(a.T, reach); ok {
+				args[i] = Val{T: c, Ty: a.Ty, S: "Int"}
+			}
+		}
 	}
 	env := fr.calleeEnv(ct, callee, sig, args, h, invoke)
 	for _, l := range ct.Lets {
